@@ -1,2 +1,3 @@
 import Zstd.Basic
 import Zstd.Props.C14
+import Zstd.Spec.Frame
